@@ -12,8 +12,8 @@ Rules name watch-sites (calls, returns, yields) and read, per world, what an arg
 
 Soundness notes.  Worlds are joined by union and collapsed (differing locals forgotten, facts intersected)
 beyond MAX_WORLDS; expressions longer than MAX_LEN are forgotten (the local stays an opaque name); a world
-is pruned only when a test whose text contains no call other than isinstance/len/callable is assumed both
-true and false along it.  Mutation through methods (`x.append`) forgets nothing: the tracked expression is
+is pruned only when one and the same test text — containing no call of a state-advancing callee (next, pop, read, ...) —
+is assumed both true and false along it (a symbolic value denotes what was computed when the local was bound).  Mutation through methods (`x.append`) forgets nothing: the tracked expression is
 "what the name was last bound to", which is what the pairing rules ask about.
 '''
 from __future__ import annotations
@@ -28,6 +28,9 @@ from sfa.model import norm
 World = tp.Tuple[tp.Tuple[tp.Tuple[str, str], ...], tp.FrozenSet[tp.Tuple[str, bool]]]
 
 PURE_CALLS = ('isinstance', 'len', 'callable', 'hasattr', 'issubclass')
+# callees whose result changes from one evaluation to the next: two occurrences of the same test text may then differ
+IMPURE_CALLS = ('next', '__next__', 'pop', 'popitem', 'popleft', 'read', 'readline', 'readlines', 'send', 'recv', 'random', 'time', 'input',
+                'fetchone', 'fetchall', 'get_nowait', 'result', '?')
 
 
 def _params(fn: ast.AST) -> tp.Set[str]:
@@ -49,7 +52,7 @@ class SymEnv(flow.Client):
 
     def __init__(self, fn: ast.AST, watch: tp.Callable[[ast.AST], bool], enclosing: tp.Optional[tp.Mapping[str, str]] = None,
                  max_worlds: tp.Optional[int] = None, track: tp.Optional[tp.Collection[str]] = None,
-                 keep_fact: tp.Optional[tp.Callable[[str], bool]] = None):
+                 keep_fact: tp.Optional[tp.Callable[[str], bool]] = None, max_len: tp.Optional[int] = None):
         '''track: when given, only these locals are followed (the others stay opaque names); keep_fact: when given, only branch
         facts whose text satisfies it are recorded.  Both only coarsen the analysis (fewer, more general worlds).'''
         self.fn = fn
@@ -57,6 +60,8 @@ class SymEnv(flow.Client):
         self.keep_fact = keep_fact
         if max_worlds:
             self.MAX_WORLDS = max_worlds
+        if max_len:
+            self.MAX_LEN = max_len
         self.watch = watch
         self.params = _params(fn)
         self.asts: tp.Dict[str, ast.expr] = {}
@@ -257,7 +262,8 @@ class SymEnv(flow.Client):
                 else:
                     out.add((env_t, facts | {('~' + norm(atom), truth)}))     # too long to carry: the source-level test, marked
                 continue
-            pure = all(isinstance(c.func, ast.Name) and c.func.id in PURE_CALLS for c in ast.walk(a) if isinstance(c, ast.Call))
+            pure = not any((c.func.attr if isinstance(c.func, ast.Attribute) else c.func.id if isinstance(c.func, ast.Name) else '?') in IMPURE_CALLS
+                           for c in ast.walk(a) if isinstance(c, ast.Call))
             if pure and (t, not truth) in facts:
                 continue            # this world assumed the opposite earlier: infeasible
             if self.keep_fact is not None and not self.keep_fact(t):
